@@ -177,20 +177,24 @@ type nbServer interface {
 	VerifAddr() net.Addr
 }
 
+// newNBCalls alternates the constructors' "secured" option: nothing judged here depends on it.
+var newNBCalls atomic.Int64
+
 func newNB(kind string) (nbServer, *nbtns.NetBIOSNameServer, error) {
+	secured := newNBCalls.Add(1)%2 == 0
 	switch kind {
 	case "Server":
-		s, err := nbtns.NewServer("127.0.0.1:0", false)
+		s, err := nbtns.NewServer("127.0.0.1:0", secured)
 		if err != nil {
 			return nil, nil, err
 		}
 		return s, s.VerifTable(), nil
 	case "UDPServer":
-		t := nbtns.NewNetBIOSNameServer(false)
+		t := nbtns.NewNetBIOSNameServer(secured)
 		s, err := nbtns.NewUDPServer("127.0.0.1:0", t)
 		return s, t, err
 	default:
-		t := nbtns.NewNetBIOSNameServer(false)
+		t := nbtns.NewNetBIOSNameServer(secured)
 		s, err := nbtns.NewTCPServer("127.0.0.1:0", t)
 		return s, t, err
 	}
